@@ -86,13 +86,15 @@ def check_static(case) -> Result:
     exp = copy.deepcopy(pep)
     new_internal = {i: list(ms) for i, ms in internal.items()}
     matched = set()
+    replaced = set()  # overwrite replaces the PRE-EXISTING modifications once; every matching rule's modifications stay
     for tgt, groups in rules:
         ms = _mods(groups[0])
         for i in t_sites(seq, tgt):
             matched.add(i)
             if i in premod:
                 if mode == 'overwrite':
-                    new_internal[i] = list(ms)
+                    new_internal[i] = (new_internal[i] if i in replaced else []) + list(ms)
+                    replaced.add(i)
                 elif mode == 'append':
                     new_internal[i] = new_internal[i] + list(ms)
             else:
@@ -105,7 +107,8 @@ def check_static(case) -> Result:
             ms = _mods(groups[0])
             if pep[key]:
                 if mode == 'overwrite':
-                    exp[key] = list(ms)
+                    exp[key] = (exp[key] if key in replaced else []) + list(ms)
+                    replaced.add(key)
                 elif mode == 'append':
                     exp[key] = exp[key] + list(ms)
             else:
